@@ -732,6 +732,35 @@ def derivative_bound(ctx, block):
                  "American binary price() != 1 although the running maximum of the CURRENT path has reached the strike", am, "1.0")
             flag("EuropeanOption", "bound_parity", ~((ec - ep - (S - K)).abs() <= 2 * tol_eu + 4 * eps * (S + K)),
                  "European call price() - put price() != S - K", ec - ep, S - K)
+            # ---- partial explicit arguments: an explicit log-moneyness (others from the derivative), an explicit time only ----
+            if fx is None:
+                import pfhedge.nn.functional as Fn
+                d0 = derivs["european_call"]
+                own = {"lm": d0.log_moneyness(), "mx": derivs["lookback"].max_log_moneyness(), "tt": d0.time_to_maturity(), "v": d0.ul().volatility}
+                for tag, kw_, lm_x, tt_x in (("explicit_log_moneyness", {"log_moneyness": own["lm"] - 0.25}, own["lm"] - 0.25, own["tt"]),
+                                             ("explicit_time_to_maturity", {"time_to_maturity": own["tt"] * 0.5}, own["lm"], own["tt"] * 0.5)):
+                    Q = {nm: m_.price(**kw_).to(F64)[:, live] for nm, m_ in mods.items()}
+                    refs = {"european_call": Fn.bs_european_price(lm_x, tt_x, own["v"], K, True),
+                            "european_put": Fn.bs_european_price(lm_x, tt_x, own["v"], K, False),
+                            "binary_call": Fn.bs_european_binary_price(lm_x, tt_x, own["v"], True),
+                            "american_binary": Fn.bs_american_binary_price(lm_x, own["mx"], tt_x, own["v"]),
+                            "lookback": Fn.bs_lookback_price(lm_x, own["mx"], tt_x, own["v"], K)}
+                    s2 = lm_x.to(F64)[:, live]
+                    S2 = K * s2.exp()
+                    t_eu = C_TOL * eps * K * (1 + s2.exp())
+                    t_lb = C_TOL * eps * K * (1 + s2.exp() + m.exp()) * (1 + w) ** 2
+                    for nm in Q:
+                        r_ = refs[nm].to(F64)[:, live]
+                        flag(type(derivs[nm]).__name__, f"bound_{tag}_not_used_{nm}", ~((Q[nm] == r_) | (Q[nm].isnan() & r_.isnan())),
+                             f"{nm} price({tag[9:]}=tensor, others omitted) != functional form at (the explicit value, the derivative's other state)", Q[nm], r_)
+                    flag("EuropeanOption", f"bound_{tag}_parity", ~((Q["european_call"] - Q["european_put"] - (S2 - K)).abs() <= 2 * t_eu + 4 * eps * (S2 + K)),
+                         f"call - put != S - K at the requested {tag[9:]}", Q["european_call"] - Q["european_put"], S2 - K)
+                    flag("EuropeanOption", f"bound_{tag}_call_bounds", ~((Q["european_call"] >= (S2 - K).clamp(min=0) - t_eu) & (Q["european_call"] <= S2 + t_eu)),
+                         f"call outside [intrinsic, S] at the requested {tag[9:]}", Q["european_call"], S2)
+                    flag("LookbackOption", f"bound_{tag}_lookback_below_european", ~(Q["lookback"] >= Q["european_call"] - t_lb - t_eu),
+                         f"lookback < European call at the requested {tag[9:]}", Q["lookback"], Q["european_call"])
+                    flag("AmericanBinaryOption", f"bound_{tag}_american_below_binary", ~(Q["american_binary"] >= Q["binary_call"] - 2 * C_TOL * eps * (1 + s2.exp())),
+                         f"American binary < European binary at the requested {tag[9:]}", Q["american_binary"], Q["binary_call"])
             # ---- per-step accessors, incl. the negative aliases -2 .. -T (max_moneyness(-1) raises on the reference tree) ----
             site_sfx = "" if fx is None else ": user subclass overriding moneyness"
             for nm in ("american_binary", "lookback"):
@@ -887,6 +916,42 @@ def integer_inputs(ctx, block):
                                 ctx.violation(site, "integer_time_not_monotone_in_volatility", f"{site} decreases from the previous volatility to {v}",
                                               observed=float(o[dec_v][0]), expected="non-decreasing", block=mb)
                         prev = o
+    # ---- exactly ONE integer tensor, at every argument position, all other arguments python numbers ----
+    if block.get("single", True) and block["dtype"] == "float32":
+        num = {"s": -0.125, "m": 0.25, "t": 1.5, "v": 0.25}
+        ints = {"s": torch.tensor([-1, 0]), "m": torch.tensor([0, 1]), "t": torch.tensor([1, 2, 5]), "v": torch.tensor([1, 2])}
+        dflt = torch.get_default_dtype()
+        for site, fn in forms.items():
+            if block.get("sites") and site not in block["sites"]:
+                continue
+            has_m = "american" in site.lower() or "lookback" in site.lower()
+            for pos in (("s", "m", "t", "v") if has_m else ("s", "t", "v")):
+                if block.get("positions") and pos not in block["positions"]:
+                    continue
+                a = dict(num)
+                a[pos] = ints[pos]
+                if "american" in site.lower() and pos != "m":
+                    # max_log_moneyness of the American binary is documented (and only accepted) as a tensor
+                    a["m"] = torch.tensor(0.25)
+                ref_args = {k: (v_.to(dflt) if isinstance(v_, torch.Tensor) else torch.tensor(v_, dtype=dflt)) for k, v_ in a.items()}
+                ref = fn(ref_args["s"], ref_args["m"], ref_args["t"], ref_args["v"]).to(F64)
+                mb = dict(block, sites=[site], positions=[pos], cases=[])
+                try:
+                    out = fn(a["s"], a["m"], a["t"], a["v"])
+                except (RuntimeError, TypeError, ValueError, AttributeError) as e:
+                    ctx.tick(1)
+                    ctx.violation(site.split("(")[0], f"single_integer_tensor_{pos}_raises:{type(e).__name__}",
+                                  f"{site} with an integer tensor for '{pos}' and python numbers elsewhere raised {e}", observed=repr(e)[:200],
+                                  expected="the value of the float call", block=mb)
+                    continue
+                ctx.tick(int(ref.numel()), nontrivial=int(ref.numel()))
+                sc = K * (1 + ref_args["s"].to(F64).exp() + ref_args["m"].to(F64).exp()) * (1 + ref_args["v"].to(F64) * ref_args["t"].to(F64).sqrt()) ** 2
+                if tuple(out.shape) != tuple(ref.shape) or not out.dtype.is_floating_point \
+                        or bool((~((out.to(F64) - ref).abs() <= C_TOL * eps32 * sc)).any()):
+                    ctx.violation(site.split("(")[0], f"single_integer_tensor_{pos}_python_numbers_truncated",
+                                  f"{site} with an integer tensor for '{pos}' ({ints[pos].tolist()}) and python numbers {dict((k, v_) for k, v_ in a.items() if k != pos)} "
+                                  f"returns {out.flatten().tolist()}; the float call returns {ref.flatten().tolist()}",
+                                  observed=out.flatten().tolist(), expected=ref.flatten().tolist(), block=mb)
     ctx.outcome(("integer", block["dtype"]))
 
 
